@@ -52,5 +52,24 @@ func init() {
 		cf := c02Src(tp, tp.funcDecl("createFieldsAndMeasurements", "Shard"))
 		fmt.Fprintf(b, "Definition c02_fields_saved_on_create_error : bool := %v.\n",
 			strings.Contains(cf, "createErr = err") && strings.Index(cf, "Save()") > strings.Index(cf, "createErr = err"))
+
+		// layer B (theories/C02/Blocks.v): the code shapes the KeyCursor model mirrors
+		nk := c02Src(p, p.funcDecl("newKeyCursor", ""))
+		sl := c02Src(p, p.funcDecl("sortLocations", ""))
+		fmt.Fprintf(b, "Definition c02_keycursor_insertion_sort : bool := %v.\n",
+			strings.Contains(nk, "sortLocations(ascLocations(c.seeks))") && strings.Contains(nk, "sortLocations(descLocations(c.seeks))") &&
+				strings.Contains(sl, "j > 0 && data.Less(j, j-1)") && !strings.Contains(nk, "sort.Sort"))
+		lc := c02Src(p, p.funcDecl("locations", "FileStore"))
+		fmt.Fprintf(b, "Definition c02_locations_read_marks : bool := %v.\n",
+			strings.Contains(lc, "location.readMax = t - 1") && strings.Contains(lc, "location.readMin = t + 1") &&
+				strings.Contains(lc, "t.Min <= ie.MinTime && t.Max >= ie.MaxTime"))
+		nd := c02Src(p, p.funcDecl("nextDescending", "KeyCursor"))
+		na := c02Src(p, p.funcDecl("nextAscending", "KeyCursor"))
+		fmt.Fprintf(b, "Definition c02_next_desc_doubles_first : bool := %v.\n",
+			strings.Contains(nd, "for i := c.pos; i >= 0; i--") && strings.Contains(na, "for i := c.pos + 1; i < len(c.seeks); i++"))
+		rb := c02Src(p, p.funcDecl("ReadFloatBlock", "KeyCursor"))
+		fmt.Fprintf(b, "Definition c02_readblock_merge_order : bool := %v.\n",
+			strings.Contains(rb, "values = values.Merge(v)") && strings.Contains(rb, "values = v.Merge(values)") &&
+				strings.Contains(rb, "c.current = c.current[1:]") && strings.Contains(rb, "first.markRead(minT, maxT)"))
 	})
 }
